@@ -1,3 +1,4 @@
+import FlexVerif.Spec.Nl
 import FlexVerif.Driver.Case
 import FlexVerif.Validator.Validate
 import FlexVerif.Driver.Trace
@@ -45,6 +46,21 @@ def mainImpl (args : List String) : IO UInt32 := do
     for e in c.errors do IO.println s!"error {e}"
     if !c.errors.isEmpty then return 2
     cmdTrace c (rest.contains "--spec")
+  | "eolflags" :: path :: _ =>
+    -- per rule: can its text / its whole match contain a newline (Re.canNl, exact by canNl_iff),
+    -- and what the emitted yy_rule_can_match_eol says
+    let lines ← IO.FS.lines path
+    let c := Case.ofLines lines
+    for e in c.errors do IO.println s!"error {e}"
+    if !c.errors.isEmpty then return 2
+    let S := c.ruleSet
+    let T := c.tables
+    let mut i := 1
+    for r in S.rules do
+      IO.println s!"rule {i} head={if r.head.canNl then 1 else 0} full={if r.full.canNl then 1 else 0} flag={T.canEol.getD i (-1)}"
+      i := i + 1
+    -- (the default rule is the last rule of `S.rules`)
+    return 0
   | "bufrun" :: path :: _ =>
     let lines ← IO.FS.lines path
     let c := Case.ofLines lines
